@@ -299,6 +299,10 @@ def _add(bundle: Bundle, val: BundleAttr) -> BundleAttr:
         msg = f"Invalid Bundle attribute {val} for {bundle}"
         raise TypeError(msg)
 
+    # Each name denotes a single attribute. Remove any prior holder of the name, of whatever type.
+    bundle.signals.pop(val.name, None)
+    bundle.bundles.pop(val.name, None)
+
     # Add it to the bundle namespace, and the type-specific container
     type_ctr[val.name] = val
     bundle.namespace[val.name] = val
